@@ -9,6 +9,7 @@ from hypothesis import strategies as st
 
 from .. import model
 from .. import streamgen as sg
+from ..util import sint
 from ..core import SKIP, Sub
 
 ID = "C19"
@@ -168,7 +169,7 @@ def check_store(case, rec):
                 if not isnull:
                     rec.fail(site, f"column {col}: row {i} was not evaluated but holds {v!r}", row=i, **info)
                     break
-            elif isnull or int(v) != int(want_d[i]):
+            elif isnull or sint(v) != sint(want_d[i]):
                 rec.fail(site, f"column {col}: row {i} should hold flag {int(want_d[i])}, holds {v!r}", row=i, **info)
                 break
     # aggregate column
@@ -185,9 +186,9 @@ def check_store(case, rec):
                 vecs = []
                 for cr in collected:
                     d, m = np.ma.getdata(cr.results), np.ma.getmaskarray(cr.results)
-                    vecs.append([None if mm else int(v) for v, mm in zip(d.tolist(), m.tolist())])
+                    vecs.append([None if mm else sint(v) for v, mm in zip(d.tolist(), m.tolist())])
                 want = model.model_compare(vecs) if vecs else []
-                got = [None if (v is None or v != v) else int(v) for v in df[sname].tolist()] if n else []
+                got = [None if (v is None or v != v) else sint(v) for v in df[sname].tolist()] if n else []
                 if got != want:
                     rec.fail(site, "roll-up column differs from the pointwise aggregate of all results", expected=want, got=got, **info)
     # data / axis columns
